@@ -149,6 +149,9 @@ class VLoop(base_events.BaseEventLoop):
     def run(self, coro, max_cycles: int = 300, drain_cycles: int = 0):
         events._set_running_loop(self)
         self.residue = None
+        import threading
+
+        self._thread_id = threading.get_ident()  # is_running() is True: needed for eager task start (asyncio checks it)
         try:
             task = self.create_task(coro)
             self._max_cycles = max_cycles
@@ -174,6 +177,7 @@ class VLoop(base_events.BaseEventLoop):
             return task.result()
         finally:
             events._set_running_loop(None)
+            self._thread_id = None
             self._ready.clear()
             self._scheduled.clear()
             self.close()
